@@ -224,6 +224,11 @@ func runC47(c *Ctx) {
 		})
 		w = f.AfterEdgesMayReach(early, nil, nil, Or(send, f.CallTo(c.FuncObj("breaker", "CircuitBreaker.toHalfOpen"))))
 		c.Check(w == nil && len(early) > 0, "open-before-deadline⇒reject", "while Open and before the re-probe deadline nothing is admitted and no transition happens", c.P.Pos(ta.Decl.Pos()), f.describe(w))
+		due := f.FactEdges(func(cm cmp) bool {
+			call, ok := ast.Unparen(cm.R).(*ast.CallExpr)
+			return cm.Op == token.GEQ && ok && f.CallOnField(openUntil, "Load")(call)
+		})
+		c.guardedBy(f, due, f.CallTo(c.FuncObj("breaker", "CircuitBreaker.toHalfOpen")), "halfopen-only-after-deadline", "tryAcquire moves the breaker to HalfOpen only over the edge on which the re-probe deadline has passed", c.P.Pos(ta.Decl.Pos()))
 		// semCh assigned only in the constructor with capacity halfOpenMaxCalls
 		for _, u := range c.UsesOf(sem) {
 			if u.IsWrite {
@@ -264,6 +269,8 @@ func runC47(c *Ctx) {
 		rejected := f.CondEdges(func(e ast.Expr) bool { id, ok := e.(*ast.Ident); return ok && id.Name == "allowed" }, false)
 		w = f.AfterEdgesMayReach(rejected, nil, nil, Or(invoke, rec))
 		c.Check(w == nil && len(rejected) > 0, "rejected⇏invoke", "a rejected call runs nothing and records nothing", c.P.Pos(ex.Decl.Pos()), f.describe(w))
+		admitted := f.CondEdges(func(e ast.Expr) bool { id, ok := e.(*ast.Ident); return ok && id.Name == "allowed" }, true)
+		c.guardedBy(f, admitted, invoke, "invoke-only-if-admitted", "the protected function runs only over the edge on which tryAcquire admitted the call", c.P.Pos(ex.Decl.Pos()))
 		w = f.MayReach(f.Find(rec), nil, rec)
 		c.Check(w == nil && len(f.Find(rec)) == 2, "one-outcome", "a completed call records at most one outcome", c.P.Pos(ex.Decl.Pos()), f.describe(w))
 		// after invoke: exits without record only on the caller-cancelled case
@@ -298,6 +305,11 @@ func runC47(c *Ctx) {
 		})
 		w := f.AfterEdgesMayReach(below, nil, nil, Or(toOpen, toClosed))
 		c.Check(w == nil && len(below) > 0, "min-requests-first", "below minRequests the breaker neither opens nor closes", c.P.Pos(rc.Decl.Pos()), f.describe(w))
+		enough := f.FactEdges(func(cm cmp) bool {
+			o := objOf(info, cm.L)
+			return cm.Op == token.GEQ && o != nil && o.Name() == "total"
+		})
+		c.guardedBy(f, enough, Or(toOpen, toClosed), "transition-only-with-min-requests", "a state transition is decided only over the edge on which the window holds at least minRequests samples", c.P.Pos(rc.Decl.Pos()))
 		rate := f.EdgesWhere(func(cond ast.Expr) (bool, bool) {
 			cm, ok := asCmp(cond, true)
 			if ok && cm.Op == token.GEQ {
